@@ -282,7 +282,7 @@ def main(args):
     ex = [c for c in cases if c["requests"]][:2]
     for c in ex:
         run.sample({"text_bytes_b64": c["b64"], "text": texts[c["id"]][2][:80].decode("utf-8", "replace"), "layout": texts[c["id"]][1]})
-    run.rule = ("one case per text enumerated by Input.tla (all strings <= N over 28 character-class representatives x 3 placements; all sequences <= K of 20 hostile lexemes x 3 layouts); "
+    run.rule = ("one case per text enumerated by Input.tla (all strings <= N over 28 character-class representatives x 4 placements; all sequences <= K of 20 hostile lexemes x 5 layouts); "
                 "token trace of every text validated by TLC against Lexer.tla; every request at every position for the shorter lengths; distinct by text")
     run.assumptions = ["small scope only: the 64 KiB coverage-guided mutation fuzzing of the quantifier is outside this technique family (DESIGN.md section 8)",
                        "deadline per request 1 s + 2 ms per byte; address space of a harness process limited to 12 GiB",
